@@ -28,9 +28,16 @@ if __name__ == "__main__":
     with multiprocessing.Pool(16) as pool:
         bases = dict(pool.map(base, PROPS))
         jobs = []
+        only = [a for a in sys.argv[1:] if not a.startswith("--")]
+        props = PROPS
+        for a in sys.argv[1:]:
+            if a.startswith("--props="):
+                props = a[8:].split(",")
         for f in sorted(glob.glob(os.path.join(root, "twins", "*.diff"))):
+            if only and os.path.basename(f)[:-5] not in only:
+                continue
             d = open(f).read()
-            for p in PROPS:
+            for p in props:
                 jobs.append((p, os.path.basename(f)[:-5], d, bases[p]))
         out = pool.map(one, jobs, chunksize=4)
     bad = [o for o in out if o[2] not in ("silent",)]
